@@ -15,7 +15,7 @@ bounded_gather(parallelism=P) is called bare (it makes its own semaphore).
 
 Oracle (the statement, clause by clause):
   bound      never more than P bodies running at once (P = the semaphore's initial value / `parallelism`);
-             also in a second call made by the same caller after the first one raised;
+             also in a second call made by the same caller after the first one returned or raised;
   order      a normal return carries the results in submission order;
   errors     return_exceptions: (value, None) / (None, exc_i) in place; otherwise the exception raised is the
              one of the partial function that failed first (in time);
@@ -83,12 +83,13 @@ def make_run_one(mode, P, pfs, cancel_caller, reduce=True):
             st['maxrun'] = max(st['maxrun'], st['running'])
             if st['running'] > P:
                 raised = st['exit'] is not None and st['exit'][0] == 'raised'
-                where = ('bounded_gather-top-level' if top and not st['exited'] else 'after-helper-raised' if raised else mode)
+                where = ('bounded_gather-top-level' if top and not st['exited'] else 'after-helper-raised' if raised else
+                         'second-call-after-first-returned' if st['phase2'] else mode)
                 if where == 'after-helper-raised' and st['ctl'] is not None and st['ctl'] != 'after-exit':
                     where += ':caller-cancelled'
                 fail(f'bound-exceeded:{where}', f'{st["running"]} bodies running at once with parallelism {P} (mode {mode}, '
                      f'pfs {pfs}); just started: {tag}'
-                     + ('; this is a second call by the same caller after the first call raised' if st['phase2'] else
+                     + (f'; this is a second call by the same caller after the first call {st["exit"][0]}' if st['phase2'] else
                         f'; the helper had already raised {st["exit"][1:]} to its caller (caller cancelled: {st["ctl"]})' if raised else ''))
 
         async def pf(i):
@@ -228,7 +229,7 @@ def make_run_one(mode, P, pfs, cancel_caller, reduce=True):
                 kind, val = await guarded(sema, fns)
                 at_exit(kind, val)
                 st['caller'] = 'after-helper'
-                if kind == 'raised' and nested and not cancel_caller:
+                if nested and not cancel_caller:
                     # second call by the same caller, no exploration: run FIFO until the first call's tasks are gone
                     loop.reorder_ready = False
                     for _ in range(200):
@@ -372,7 +373,7 @@ def configs(tier):
             for P in Ps:
                 for mode in modes:
                     for cc in (False, True):
-                        if n >= 4 and cc and mode in ('top_gather', 'top_gather_cancel'):
+                        if n >= 4 and cc and mode not in ('raise_cancel', 'return_exc'):
                             continue
                         cfg = (mode, P, pfs, cc)
                         if cfg not in seen:
@@ -440,7 +441,8 @@ def check(tier, seed, procs):
                    ('2-3 partial functions, each returns|raises after 0..1 yields; parallelism 1-2; caller cancelled at any step or not'
                     if tier == 'quick' else
                     '2 pfs (returns|raises|raises CancelledError after 0..2 yields), 3 pfs (same kinds, 0..1 yields; returns|raises, 0..2 yields), '
-                    '4 pfs (returns|raises, 0..1 yields, <=2 failing); parallelism 1-3 (1-2 for the 0..2-yield 3-pf family); caller cancelled at any step or not')),
+                    '4 pfs (returns|raises, 0..1 yields, <=2 failing; caller cancellation only for cancel_on_error and return_exceptions modes); '
+                    'parallelism 1-3 (1-2 for the 0..2-yield 3-pf family); caller cancelled at any step or not')),
     }
     need = ['caller-cancelled:before-call', 'caller-cancelled:in-helper', 'caller-cancelled:in-helper:wakeup-pending', 'caller-cancelled:after-exit',
             'helper-returned', 'helper-raised', 'bound-reached', 'a-body-was-cancelled', 'a-pf-never-started', 'two-or-more-failures']
@@ -453,7 +455,7 @@ def check(tier, seed, procs):
             'every order of task steps is explored; callbacks that are not task steps keep asyncio\'s FIFO order among themselves',
             'bounded_gather2*/OnlineBoundedGather2 are called by a caller holding one permit (the repo\'s convention); bounded_gather is called bare',
             '"first" exception = the partial function that raised first in the executed schedule',
-            'the second call after a raising first call is run in FIFO order only (no exploration)',
+            'the second call by the same caller (made when the caller was not cancelled) is run in FIFO order only (no exploration)',
         ],
         'vacuous': f'never exercised: {missing}' if missing else None,
     }
